@@ -473,6 +473,9 @@ class Runtime:
                 return v
             if self.is_exception_class(obj.cls) and name == "args":
                 return obj.fields.get("args", ())
+            if obj.cls.kind == "builtin" and obj.cls.info is None and "(" in obj.cls.name:
+                # an environment-model / contract-slot object: what it does not model is undecided, not an AttributeError
+                raise Undecided("the model object %s has no attribute %r" % (obj.cls.name, name))
             interp.raise_py("AttributeError", "%r object has no attribute %r" % (obj.cls.name, name))
         if isinstance(obj, _Super):
             for c in obj.cls.mro()[1:]:
